@@ -295,7 +295,7 @@ class PropJudge:
         t2 = self._table(p, names, objs)
         for k, bits in enumerate(itertools.product([0, 1], repeat=len(names))):
             if t0[k] != t1[k]:
-                return {"assignment": dict(zip(names, bits)), "original_value": t0[k], "optimized_value": t1[k]}
+                return {"assignment": dict(zip(names, bits)), "original_value": t0[k], "optimized_value": t1[k], "_env": dict(zip(names, [bool(b) for b in bits]))}
             if t0[k] != t2[k]:
                 return {"assignment": dict(zip(names, bits)), "original_value": t0[k], "original_after_optimize": t2[k], "what": "optimize changed the meaning of its argument (mutation)"}
         return None
@@ -324,7 +324,7 @@ class ValuesJudge:
             except Exception as e:  # noqa: BLE001
                 return {"value": repr(x), "original_value": a, "optimized_value": f"raised {type(e).__name__}"}
             if a != bool(b):
-                return {"value": repr(x), "original_value": a, "optimized_value": bool(b)}
+                return {"value": repr(x), "original_value": a, "optimized_value": bool(b), "_x": x}
             try:
                 a2 = bool(p(x))
             except Exception as e:  # noqa: BLE001
@@ -384,11 +384,25 @@ def run(chk, name, cases, cfg, differs, share=False, restore_vars=True):
             w = differs.after(state, p, o, s)
             if w is not None:
                 expl = None
-                if agree and "what" not in w:
-                    for t in tr:
-                        if t in known:
-                            expl = known[t]
-                            break
+                quirk = next((known[t] for t in tr if t in known), None) if "what" not in w else None
+                if quirk and agree:
+                    expl = quirk
+                elif quirk and not mtxt.startswith(("FUEL", "ERR")):
+                    # the implementation's result is not the model's (some other rule changed), but the input still runs into the
+                    # open finding if the MODEL's result is wrong at the same point in the same way
+                    try:
+                        mo = lift.lower(S.parse1(mtxt))
+                        if "_x" in w:
+                            same = bool(mo(w["_x"])) == w["optimized_value"]
+                        else:
+                            for nobj in named_objects(mo, []):
+                                nobj.v = w["_env"].get(nobj.name, False)
+                            same = bool(mo(False)) == w["optimized_value"]
+                        if same:
+                            expl = quirk
+                    except Exception:  # noqa: BLE001
+                        pass
+                w = {k: v for k, v in w.items() if not k.startswith("_")}
                 chk.add_failure(stext, {"optimized": ptxt, **w, "model_trace": tr}, expl)
         elif ptxt.startswith("RAISED") or ptxt.startswith("UNLIFTABLE") or ptxt.startswith("MUTATED"):
             # optimize did not return a predicate: that is a failure of C12/C01 in itself
